@@ -1724,9 +1724,9 @@ impl Monitor for Ms {
     }
     fn histories(&self, tier: Tier) -> u64 {
         match self.prop {
-            "C03" => tier.pick(160, 48_000),
-            "C05" => tier.pick(160, 24_000),
-            _ => tier.pick(160, 36_000),
+            "C03" => tier.pick(800, 48_000),
+            "C05" => tier.pick(600, 24_000),
+            _ => tier.pick(700, 36_000),
         }
     }
     fn mandatory(&self) -> Vec<&'static str> {
